@@ -170,13 +170,17 @@ GenSpec == GInit /\ [][GNext]_gvars
 (* or, `late`, only after op2) and over get / scan; op2 over every write   *)
 (* in both forms (and, FT_OP2READS = 1, get / scan before the commit).     *)
 (* Columns, keys and value types range over the whole universe, elements   *)
-(* of op1 / op2 over the first FT_NE_OP ones, put writes the value 2.      *)
+(* of op1 / op2 over the first FT_NE_OP ones, put writes the value 2; the  *)
+(* keys of op2 can be limited to the first FT_NK_OP2 ones and op2 can be   *)
+(* left out after the empty prefix (FT_FRESH_OP2 = 0) in the quick tier.   *)
 (* Expected reads come from the reference as everywhere else; every event  *)
 (* carries `t`, the columns touched in the session so far (evidence).      *)
 (***************************************************************************)
 FTOpElems == {ElemNames[i] : i \in 1..atoi(IOEnv.FT_NE_OP)}
 FTOp2Reads == atoi(IOEnv.FT_OP2READS) = 1
 FTLate == atoi(IOEnv.FT_LATE) = 1
+FTOp2Keys == {KeyNames[i] : i \in 1..atoi(IOEnv.FT_NK_OP2)}
+FTFreshOp2 == atoi(IOEnv.FT_FRESH_OP2) = 1
 
 Ins(c, key, e) == [k |-> "ins", c |-> c, key |-> key, x |-> e, val |-> 0]
 Put(c, key, vt, v) == [k |-> "put", c |-> c, key |-> key, x |-> vt, val |-> v]
@@ -185,6 +189,10 @@ PrefixOps == <<Ins("S1", "K1", "E1"), Ins("S1", "K1", "E2"), Ins("S1", "K1", "E3
 
 FTWrites == {o \in PutOps : o.val = 2} \cup DelOps
             \cup {o \in InsOps \cup RemOps : o.x \in FTOpElems}
+FTWrites2 == {o \in FTWrites : o.key \in FTOp2Keys}
+
+(* op2 is left out after the empty prefix unless FT_FRESH_OP2 = 1 *)
+FTWithOp2 == FTFreshOp2 \/ hist[1].prefix = "content"
 
 (* record, go to phase `nc` (index `nw`) *)
 FRec(ev, nc, nw) ==
@@ -246,24 +254,25 @@ FTNext ==
     \/ /\ cls = "ft_op1_cons"
        /\ \/ Consume(1, 1) /\ FRec([a |-> "consume", h |-> 1, s |-> 1], "ft_op2", 0)
           \* late: op2 goes directly to the batch first, the buffer is consumed after it
-          \/ /\ FTLate
-             /\ \E op \in FTWrites :
+          \/ /\ FTLate /\ FTWithOp2
+             /\ \E op \in FTWrites2 :
                    BatchOp(1, op) /\ FRec([a |-> "op", via |-> "wb", h |-> 1, op |-> op], "ft_late_cons", 0)
     \/ /\ cls = "ft_late_cons"
        /\ Consume(1, 1) /\ FRec([a |-> "consume", h |-> 1, s |-> 1], "ft_commit", 0)
     \* --- op2 (optional) -----------------------------------------------------
     \/ /\ cls = "ft_op2"
-       /\ \/ \E op \in FTWrites :
-                BatchOp(1, op) /\ FRec([a |-> "op", via |-> "wb", h |-> 1, op |-> op], "ft_commit", 0)
-          \/ OpenBuf(1) /\ FRec([a |-> "buf", h |-> 1], "ft_op2_sb", 0)
-          \/ /\ FTOp2Reads /\ batch[1].ops # <<>>
+       /\ \/ /\ FTWithOp2
+             /\ \E op \in FTWrites2 :
+                   BatchOp(1, op) /\ FRec([a |-> "op", via |-> "wb", h |-> 1, op |-> op], "ft_commit", 0)
+          \/ FTWithOp2 /\ OpenBuf(1) /\ FRec([a |-> "buf", h |-> 1], "ft_op2_sb", 0)
+          \/ /\ FTWithOp2 /\ FTOp2Reads /\ batch[1].ops # <<>>
              /\ FTRead("ft_commit")
           \* no op2; a session that only read has nothing to commit
           \/ /\ batch[1].ops # <<>>
              /\ Commit(1)
              /\ FRec([a |-> "commit", h |-> 1, q |-> TRUE, state |-> Dump(wide', sets')], "ft_sweep1", 0)
     \/ /\ cls = "ft_op2_sb"
-       /\ \E op \in FTWrites :
+       /\ \E op \in FTWrites2 :
              BufOp(1, op) /\ FRec([a |-> "op", via |-> "sb", h |-> 1, op |-> op], "ft_op2_cons", 0)
     \/ /\ cls = "ft_op2_cons"
        /\ Consume(1, 1) /\ FRec([a |-> "consume", h |-> 1, s |-> 1], "ft_commit", 0)
